@@ -770,7 +770,31 @@ func (m *Machine) deref(p *Term, n int, write bool, what string) (*Block, int) {
 		panic(&GuestPanic{runtime: true, msg: "invalid memory address or nil pointer dereference", site: m.site()})
 	}
 	b := m.heap.find(addr)
-	if b == nil || addr+uint64(n) > b.base+uint64(b.size) {
+	if b == nil {
+		b = m.findSym(addr)
+	}
+	if b != nil && b.sizeTerm != nil {
+		// symbolic-size block: the access must lie below the logical size for every value
+		end := addr - b.base + uint64(n)
+		m.monitor(m.ctx.Ule(m.ctx.Const(end, 64), b.sizeTerm), "fault", fmt.Sprintf("M-bounds: %s of %d bytes at offset %d beyond the (symbolic) size of %s", what, n, addr-b.base, b.name))
+		if int(end) > b.size {
+			if int(end) > m.cfg.MaxAlloc {
+				m.unsupported("access at offset %d of a symbolic-size block exceeds the engine cap", end)
+			}
+			b = m.wblock(b)
+			grow := int(end) - b.size
+			b.data = append(b.data, make([]byte, grow)...)
+			if b.defined != nil {
+				b.defined = append(b.defined, make([]bool, grow)...)
+			}
+			if b.cellAt != nil {
+				for i := 0; i < grow; i++ {
+					b.cellAt = append(b.cellAt, -1)
+				}
+			}
+			b.size = int(end)
+		}
+	} else if b == nil || addr+uint64(n) > b.base+uint64(b.size) {
 		m.violate("fault", fmt.Sprintf("M-bounds: %s of %d bytes at %#x outside any block (%s)", what, n, addr, describeNear(&m.heap, addr)), nil)
 		panic(&pathEnd{"fault", "out-of-bounds access"})
 	}
@@ -1020,3 +1044,17 @@ func (m *Machine) allocObj(t types.Type, n int, name string) *Block {
 }
 
 func (m *Machine) ptr(b *Block) *Term { return m.ctx.Const(b.base, 64) }
+
+// findSym: address inside the reserved range of a symbolic-size block (beyond its current physical size).
+func (m *Machine) findSym(addr uint64) *Block {
+	h := &m.heap
+	i := sort.Search(len(h.blocks), func(i int) bool { return h.blocks[i].base > addr }) - 1
+	if i < 0 {
+		return nil
+	}
+	b := h.blocks[i]
+	if b.sizeTerm != nil && addr < b.base+uint64(m.cfg.MaxAlloc) {
+		return b
+	}
+	return nil
+}
